@@ -1,6 +1,7 @@
 import Driver.Proto
 import PolyVerif.Model.Tree
 import PolyVerif.Model.RenderPrims
+import PolyVerif.Model.RenderTree
 
 namespace Driver.C16
 open PolyVerif PolyVerif.Tree PolyVerif.Gen.geometry
@@ -102,6 +103,26 @@ def primLine (kind : String) (fs : List Float) : Option String :=
     let p : RPrim Float := .tri ⟨a1, a2, a3⟩ ⟨b1, b2, b3⟩ ⟨c1, c2, c3⟩
     let ray : TemporalRay Float := ⟨⟨ox, oy, oz⟩, ⟨dx, dy, dz⟩, time⟩
     some (fsHex (bbTo (nodeBox p.box p.box)) ++ " " ++ hitStr (oneNodeRec ray p mn mx))
+  | _, _ => none
+
+open PolyVerif.RPrims in
+/-- `<n> (s cs ce ct r | r blx bly trx try depth)…` -/
+def parseObjs : Nat → List String → Option (List (RPrim Float) × List String)
+  | 0, ts => some ([], ts)
+  | k + 1, "s" :: ts => do
+    let fs ← floats? (ts.take 10)
+    match fs with
+    | [a1, a2, a3, b1, b2, b3, c1, c2, c3, r] =>
+      let (rest, ts') ← parseObjs k (ts.drop 10)
+      pure (RPrim.sphere ⟨a1, a2, a3⟩ ⟨b1, b2, b3⟩ ⟨c1, c2, c3⟩ r :: rest, ts')
+    | _ => none
+  | k + 1, "r" :: ts => do
+    let fs ← floats? (ts.take 5)
+    match fs with
+    | [blx, bly, trx, try', depth] =>
+      let (rest, ts') ← parseObjs k (ts.drop 5)
+      pure (RPrim.rect ⟨blx, bly⟩ ⟨trx, try'⟩ depth :: rest, ts')
+    | _ => none
   | _, _ => none
 
 /-- oracle: point inside the box up to rounding (relative slack 1e-9) -/
@@ -268,6 +289,20 @@ def handle (op : String) (args : List String) : Option String := do
         let ray : PolyVerif.Gen.rendering.TemporalRay Float := ⟨⟨ox, oy, oz⟩, ⟨dx, dy, dz⟩, time⟩
         pure (distStr (PolyVerif.RPrims.meshHit t ray mn mx) ++ " " ++ distStr (PolyVerif.RPrims.meshHit2 t ray mn mx))
       | _, _ => none
+  | "c16.tree.hit" => do
+      match args with
+      | ntok :: rest =>
+        let n ← nat? ntok
+        let (objs, ts) ← parseObjs n rest
+        let fs ← floats? ts
+        match fs with
+        | [ox, oy, oz, dx, dy, dz, time, mn, mx] =>
+          let ray : PolyVerif.Gen.rendering.TemporalRay Float := ⟨⟨ox, oy, oz⟩, ⟨dx, dy, dz⟩, time⟩
+          match PolyVerif.RPrims.treeOf objs (octreeDepthFromCount n) with
+          | some t => pure (distStr (PolyVerif.RPrims.treeHit objs t ray mn mx))
+          | none => pure "nil"
+        | _ => none
+      | _ => none
   | "c16.holds.box_history" => do   -- args: <where> box(6) cs(3) ce(3) r : the box a sphere returned for THIS interval = model
       let fs ← floats? (args.drop 1)
       match fs with
